@@ -272,7 +272,7 @@ PROPS["C15"] = dict(
     level="exploration",
     engine="E1",
     parts=[dict(bin="e1_serde", timeout_s={"quick": 900, "thorough": 3600})],
-    rule="case = (structure type, contents): BitVec (Vec/Box), AddNumBits, Rank9, RankSmall x5, Select9, SelectAdapt (two parameterisations), SelectZeroAdapt, three-level compositions, Select(Zero)AdaptConst, Select(Zero)Small, each on 11 bit vectors (empty, singletons, lengths 63/64/65/1000/4097/70000, sparse with 32-bit spans, dense with a hole); BitFieldVec<W> for the six word types x widths x lengths (Vec and Box); EliasFano plain/EfSeq/EfDict/EfSeqDict on 7 sequences (empty, empty with u>0, singleton, duplicates, 200 values, 5000 clustered, l=0 runs); RearCodedList for k in {1,4,8} on 4 lists; VFunc for 7 (backend, signature, shard/edge) combinations and VFilter x2 on key sets of 0, 1, 10, 1000 (thorough 150000) keys; every case goes through SIX loading paths: serialize+deserialize_full, deserialize_eps from an aligned byte buffer, store+load_full, mmap, load_mmap, load_mem (Select(Zero)Small: the two full-copy paths only - their zero-copy form does not implement the query traits, a compile-time limitation); non-trivial = non-empty contents",
+    rule="case = (structure type, contents): BitVec (Vec/Box), AddNumBits, Rank9, RankSmall x5, Select9, SelectAdapt (two parameterisations), SelectZeroAdapt, three-level compositions, Select(Zero)AdaptConst, Select(Zero)Small, each on 11 bit vectors (empty, singletons, lengths 63/64/65/1000/4097/70000, sparse with 32-bit spans, dense with a hole); BitFieldVec<W> for the six word types x widths x lengths (Vec and Box); EliasFano plain/EfSeq/EfDict/EfSeqDict on 7 sequences (empty, empty with u>0, singleton, duplicates, 200 values, 5000 clustered, l=0 runs); RearCodedList for k in {1,4,8} on 4 lists; the six ShardEdge parameter structs set up for 0..40 000 000 keys (edges, sort keys and shards of 67 signatures compared); VFunc for 7 (backend, signature, shard/edge) combinations and VFilter x2 on key sets of 0, 1, 10, 1000 (thorough 150000) keys; every case goes through SIX loading paths: serialize+deserialize_full, deserialize_eps from an aligned byte buffer, store+load_full, mmap, load_mmap, load_mem (Select(Zero)Small: the two full-copy paths only - their zero-copy form does not implement the query traits, a compile-time limitation); non-trivial = non-empty contents",
     alphabet="see rule",
     bound={"quick": "as in rule", "thorough": "adds a multi-shard function (150000 keys)"},
     oracle="the complete query alphabet of the owning property (len, get/bits, rank/rank_zero at every position, select/select_zero at every rank, get/iter/iter_from/index_of/succ/pred, get/index_of/contains, get(k) for keys and non-keys, contains) gives identical answers on the original and on the loaded instance",
